@@ -87,6 +87,8 @@ def gen_case(rng, tier, idx):
             p = rng.uniform(0.01, 1000.0)
         prices.append([p, rng.random() < 0.5])
     case = {"drive": "direct", "tick": tick, "prices": prices}
+    if idx % 10 == 3:
+        case["warnings_as_errors"] = True
     if rng.random() < 0.4:
         # the market's own published price is off the grid (an off-grid configured price, or a mid price of an odd
         # spread before the first trade) and orders are pegged exactly to it
@@ -223,6 +225,25 @@ def run_case(case, res):
             else:
                 res.violation("accept", "order-for-another-market-accepted", {"tick": tick, "price": p})
                 continue
+        if case.get("warnings_as_errors"):
+            # a caller that escalates warnings (python -W error, pytest filterwarnings=error): an off-grid order may
+            # then be refused with the warning - but whatever IS accepted must still be on the grid
+            import warnings as _w
+
+            try:
+                with _w.catch_warnings():
+                    _w.simplefilter("error")
+                    log = m._add_order(o)
+            except UserWarning:
+                res.count("class/refused_under_warnings_as_errors")
+                continue
+            except Exception as e:  # noqa
+                res.violation("accept", "valid-limit-order-refused:" + type(e).__name__,
+                              {"tick": tick, "price": p, "is_buy": is_buy, "exc": repr(e), "warnings": "error"})
+                continue
+            judge(res, tick, p, is_buy, log.price, "direct(warnings as errors)")
+            res.count("class/accepted_under_warnings_as_errors")
+            continue
         try:
             log = m._add_order(o)
         except Exception as e:  # noqa
